@@ -148,9 +148,28 @@ def lockstep_roles(F):
                 continue
             nd, cx = peel(build[0][1]["args"][1]), peel(fields["1"])
             fl = lit(fields["2"])
-            if nd.get("k") == "Var" and cx.get("k") == "Var" and fl and fl[0] == "bool":
-                roles[fl[1]] = (nd["id"], cx["id"], nd["name"], cx["name"])
+            if q.place(nd) is not None and q.place(cx) is not None and fl and fl[0] == "bool":
+                roles[fl[1]] = (q.place(nd), q.place(cx), show(nd), show(cx))
     return roles
+
+
+def matchtype_value_is_payload(F):
+    """MatchType::value(&self) returns the text payload of whichever kind self is"""
+    f = F.fn("parser::MatchType::value")
+    if f is None:
+        return False
+    m = unblock(f.body)
+    if m.get("k") != "Match" or not m["arms"]:
+        return False
+    seen = set()
+    for a in m["arms"]:
+        for alt in or_pats(a["pat"]):
+            v = variant_of(alt)
+            b = strip_ref(subpat(alt, 0)) if v else None
+            if not v or v[0] != "MatchType" or b is None or b.get("k") != "Bind" or q.var_id(unblock(a["body"])) != b["id"]:
+                return False
+            seen.add(v[1])
+    return seen == {"Contains", "EndsWith", "Exact", "StartsWith"}
 
 
 def builder_chain(n):
@@ -485,16 +504,31 @@ def run(rep):
                 if c is not None and c.get("k") == "Field" and c["name"] == "ignore_case" and q.var_id(c["arg"]) == ivar_id:
                     for branch, flagv, label in ((x["then"], True, "insensitive"), (x["else"], False, "sensitive")):
                         role = roles.get(flagv)
-                        pushes = q.calls(branch, "::push") if branch else []
-                        tgt = sorted(q.var_id(c2["args"][0]) for c2 in pushes if q.var_id(c2["args"][0]) is not None)
-                        okp = role is not None and tgt == sorted([role[0], role[1]])
+                        pushes = [c2 for c2 in (q.calls(branch, "::push") if branch else []) if "Vec<" in str(c2["args"][0].get("ty", "")) or "Vec<" in str(peel(c2["args"][0]).get("ty", ""))]
+                        tgt = sorted((str(q.place(c2["args"][0])) for c2 in pushes if q.place(c2["args"][0]) is not None))
+                        okp = role is not None and tgt == sorted([str(role[0]), str(role[1])])
                         okv = oks = False
+
+                        def kind_value(a):
+                            """MatchType::<kind>(text of this member) -> True; through an immutable binding of it as well"""
+                            a = peel(a)
+                            if a.get("k") == "Var":
+                                init = q.let_init(branch, a["id"])
+                                a = peel(init) if init is not None else a
+                            if not (a.get("k") == "Adt" and a["adt"] == "parser::MatchType" and a["variant"] == kind):
+                                return False
+                            t = peel(a["fields"][0]["e"])
+                            return q.var_id(t) == sid or (call_is(t, "Clone::clone") and q.var_id(t["args"][0]) == sid)
                         for c2 in pushes:
-                            if role and q.var_id(c2["args"][0]) == role[1]:
-                                a = peel(c2["args"][1])
-                                okv = a.get("k") == "Adt" and a["adt"] == "parser::MatchType" and a["variant"] == kind and call_is(peel(a["fields"][0]["e"]), "Clone::clone") and q.var_id(peel(a["fields"][0]["e"])["args"][0]) == sid
-                            if role and q.var_id(c2["args"][0]) == role[0]:
-                                oks = q.var_id(c2["args"][1]) == sid
+                            if role and q.place(c2["args"][0]) == role[1]:
+                                okv = kind_value(c2["args"][1])
+                            if role and q.place(c2["args"][0]) == role[0]:
+                                t = peel(c2["args"][1])
+                                if call_is(t, "Clone::clone") and len(t["args"]) == 1 and call_is(peel(t["args"][0]), "parser::MatchType::value"):
+                                    # the text read back out of the kind value that goes to the context vector (value() is the payload: T-VALUE)
+                                    oks = kind_value(peel(t["args"][0])["args"][0]) and matchtype_value_is_payload(F)
+                                else:
+                                    oks = q.var_id(t) == sid or (call_is(t, "Clone::clone") and q.var_id(t["args"][0]) == sid)
                         npairs += 1
                         rep.check(okp and okv and oks, "LOCKSTEP", "LOCKSTEP/push/%s/%s" % (kind, label), branch["sp"] if branch else x["sp"],
                                   "%s member: one push of MatchType::%s(text) to the %s context vector and one push of the same text to its needle vector" % (label, kind, label),
@@ -503,7 +537,7 @@ def run(rep):
         allowed = {"push", "is_empty", "len", "into_iter", "build", "next"}
         for flagv, role in sorted(roles.items()):
             for vid, nm in ((role[0], "needles"), (role[1], "context")):
-                other = sorted({n["fn"].split("::")[-1] for n in walk(pm.body) if n.get("k") == "Call" and n.get("fn") and n.get("args") and any(q.var_id(a) == vid for a in n["args"])} - allowed)
+                other = sorted({n["fn"].split("::")[-1] for n in walk(pm.body) if n.get("k") == "Call" and n.get("fn") and n.get("args") and any(q.place(a) == vid for a in n["args"])} - allowed)
                 rep.check(not other, "LOCKSTEP", "LOCKSTEP/only-pushed/%s-%s" % ("insensitive" if flagv else "sensitive", nm), pm.sp,
                           "the %s %s vector is only pushed to, measured and consumed (no dedup/sort/remove that would break the alignment)" % ("insensitive" if flagv else "sensitive", nm), str(other))
         # regex buckets
